@@ -1,14 +1,26 @@
 (* SetCodecModel.v — mirror of the four codec methods of /repo/set/set.go (no proofs).
 
-   MarshalJSON    json.Marshal(s.Slice())            set_marshal  (nil slice when empty)
-   UnmarshalJSON  decode []T, then s.Add(v...)       set_unmarshal
-   MarshalYAML    returns s.Slice()                  set_marshal
-   UnmarshalYAML  decode []T, then s.Add(temp...)    set_unmarshal
+   MarshalJSON    json.Marshal(s.Slice())                     set_marshal  (nil slice when empty)
+   UnmarshalJSON  var v []T; json.Unmarshal(data, &v);        set_unmarshal
+                  then s.Add(v...)
+   MarshalYAML    returns s.Slice()                           set_marshal
+   UnmarshalYAML  temp := []T{}; value.Decode(&temp);         set_unmarshal
+                  then s.Add(temp...)
 
-   The element codec of the library is a Section variable: [enc] renders an optional listing
-   (None = Go's nil slice: JSON `null`, YAML `[]`), [dec] parses a document into a listing or
-   fails.  Its assumed behaviour (dec (enc l) = Some l) is a hypothesis of the theorems, named
-   in the trusted base and validated per case by the correspondence run.                     *)
+   Section SetCodec: the library's codec of a listing is a Section variable.  [enc] renders an
+   optional listing (None = Go's nil slice: JSON `null`, YAML `[]`); [dec d v0] parses document
+   [d] INTO a slice variable whose current value is [v0] (both libraries decode into existing
+   storage; set.go always hands them a fresh empty slice, so only [dec d []] is used) or fails.
+
+   Section ArrayLayer: a concrete executable model of the sequence layer of both libraries —
+   framing of a listing as null / array of element documents and decoding of an array INTO a
+   slice value — over an element codec [enc_elem] / [dec_elem e old] ("decode element document
+   e into a variable that currently holds old": encoding/json and yaml.v3 MERGE into an
+   existing struct, so the result may depend on old).  [arr_dec] is what json.Unmarshal /
+   Node.Decode do for a []T; [dec_reused] is a decoder that streams the array into ONE reused
+   variable (element k is decoded into the value element k-1 left behind); SetCodecProofs shows
+   that the first round-trips under the hypothesis "an element decodes from its encoding into a
+   fresh zero value", and that the second does not.                                           *)
 From Coq Require Import List Bool.
 From GT Require Import SetModel.
 Import ListNotations.
@@ -18,16 +30,69 @@ Section SetCodec.
   Variable eqb : T -> T -> bool.
   Variable doc : Type.
   Variable enc : option (list T) -> doc.
-  Variable dec : doc -> option (list T).
+  Variable dec : doc -> list T -> option (list T).
 
   (* [order]: the keys in the order the runtime ranges over the map while building Slice() *)
   Definition listing (order : list T) : option (list T) :=
     match order with [] => None | l => Some l end.
   Definition set_marshal (order : list T) : doc := enc (listing order).
   Definition set_unmarshal (t : sset T) (d : doc) : option (sset T) :=
-    match dec d with
+    match dec d [] with
     | Some l => Some (fst (s_add eqb t l))
     | None => None
     end.
 End SetCodec.
 Arguments listing {T}. Arguments set_marshal {T doc}. Arguments set_unmarshal {T} eqb {doc}.
+
+Section ArrayLayer.
+  Variable T : Type.      (* element type *)
+  Variable E : Type.      (* encoded element (a JSON value / YAML node) *)
+  Variable zero : T.      (* Go's zero value of T *)
+  Variable enc_elem : T -> E.
+  Variable dec_elem : E -> T -> option T.   (* decode e into a variable currently holding the 2nd argument *)
+
+  Inductive adoc := ANull | AArr (es : list E).
+
+  (* json.Marshal of a []T: null for the nil slice; yaml.v3: [] for the nil slice *)
+  Definition arr_enc (null_for_nil : bool) (o : option (list T)) : adoc :=
+    match o with
+    | None => if null_for_nil then ANull else AArr []
+    | Some l => AArr (map enc_elem l)
+    end.
+
+  (* decoding an array into a slice value v0: element i is decoded into v0's element i where it
+     exists and into a fresh zero value beyond; the result has the document's length *)
+  Fixpoint dec_into (es : list E) (v0 : list T) : option (list T) :=
+    match es with
+    | [] => Some []
+    | e :: r =>
+        match dec_elem e (hd zero v0) with
+        | Some x => match dec_into r (tl v0) with Some l => Some (x :: l) | None => None end
+        | None => None
+        end
+    end.
+  Definition arr_dec (d : adoc) (v0 : list T) : option (list T) :=
+    match d with
+    | ANull => Some []            (* null: the slice is set to nil *)
+    | AArr es => dec_into es v0
+    end.
+
+  (* a streaming decoder that reuses one variable for every element (NOT what set.go does) *)
+  Fixpoint dec_reused (es : list E) (item : T) : option (list T) :=
+    match es with
+    | [] => Some []
+    | e :: r =>
+        match dec_elem e item with
+        | Some x => match dec_reused r x with Some l => Some (x :: l) | None => None end
+        | None => None
+        end
+    end.
+  Definition arr_dec_reused (d : adoc) (v0 : list T) : option (list T) :=
+    match d with
+    | ANull => Some []
+    | AArr es => dec_reused es zero
+    end.
+End ArrayLayer.
+Arguments ANull {E}. Arguments AArr {E}.
+Arguments arr_enc {T E}. Arguments arr_dec {T E}. Arguments dec_into {T E}.
+Arguments dec_reused {T E}. Arguments arr_dec_reused {T E}.
